@@ -10,9 +10,9 @@ STRS = ["a", "b c", "dd", "é", "x", ""]
 SKEYS = ["a", "b c", "k", "é"]
 IKEYS = [0, 1, -1, 7]
 LIST_T = ["li", "ls", "lo", "ln"]
-MAP_T = ["msi", "mis"]
+MAP_T = ["msi", "mis", "msl"]
 TYPE_SRC = {"li": "[int...]", "ls": "[str...]", "lo": "[int?...]", "ln": "[[int...]...]",
-            "msi": "map[str, int]", "mis": "map[int, str]"}
+            "msi": "map[str, int]", "mis": "map[int, str]", "msl": "map[str, [int...]]"}
 
 CALLBACKS = {
     # name: (param type, result type, source body, python model taking (x, state) -> result)
@@ -67,7 +67,10 @@ class Interp:
     def observe_var(self, name):
         o = self.vars[name]
         self.em.code("print %s" % name)
-        if o.t in MAP_T:
+        if o.t == "msl":
+            items = ["%s: %s" % (fmt_value(k, True), fmt_value(v.data, True)) for k, v in o.data.items()]
+            self.em.out_set("{", items, "}")
+        elif o.t in MAP_T:
             items = ["%s: %s" % (fmt_value(k, True), fmt_value(v, True)) for k, v in o.data.items()]
             self.em.out_set("{", items, "}")
         else:
@@ -136,6 +139,8 @@ class Interp:
             t = op["t"]
             if t == "ln":
                 obj = Obj("ln", [Obj("li", list(x)) for x in op["init"]])
+            elif t == "msl":
+                obj = Obj(t, {})
             elif t in MAP_T:
                 obj = Obj(t, dict((kk, vv) for kk, vv in op["init"]))
             else:
@@ -194,7 +199,7 @@ class Interp:
             em.code("%s = %s" % (name, an))
             return True
         if k == "clone":
-            if a.t == "ln":
+            if a.t in ("ln", "msl"):
                 return False
             name = self.fresh(a.t, Obj(a.t, a.data.copy()))
             em.code("%s = %s.clone()" % (name, an))
@@ -399,7 +404,58 @@ class Interp:
             return [list(x.data) for x in o.data]
         return list(o.data)
 
+    def apply_msl(self, op, a, an):
+        """map[str, [int...]]: the values are lists shared with whoever else holds them."""
+        k = op["op"]
+        em = self.em
+        key = op.get("k")
+        if k in ("mwrite", "mread", "mremove", "contains", "mget") and not isinstance(key, str):
+            return False
+        if k == "mwrite":
+            b = self.vars.get(op.get("b"))
+            if b is not None and b.t == "li":
+                em.code("%s[%s] = %s" % (an, lit(key), op["b"]))       # shares the list
+                a.data[key] = b
+            else:
+                v = [x for x in (op.get("lv") or [1]) if isinstance(x, int)]
+                if not v:
+                    return False
+                em.code("%s[%s] = %s" % (an, lit(key), lit(v)))
+                a.data[key] = Obj("li", list(v))
+            return True
+        if k == "mread":
+            em.code("print %s[%s]" % (an, lit(key)))
+            em.out(fmt_value(a.data[key].data, True) if key in a.data else "nil")
+            return True
+        if k == "mget":
+            if key not in a.data:
+                return False
+            name = self.fresh("li", a.data[key])
+            em.code("%s = get %s[%s]" % (name, an, lit(key)))
+            return True
+        if k == "mremove":
+            em.code("print %s.remove(%s)" % (an, lit(key)))
+            o = a.data.pop(key, None)
+            em.out(fmt_value(o.data, True) if o is not None else "nil")
+            return True
+        if k == "contains":
+            em.code("print %s.contains_key(%s)" % (an, lit(key)))
+            em.out("true" if key in a.data else "false")
+            return True
+        if k == "values":
+            # the list returned by values() is a temporary that shares the inner lists
+            em.code("print %s.values().len()" % an)
+            em.out(str(len(a.data)))
+            return True
+        if k == "keys":
+            em.code("print %s.keys()" % an)
+            em.out_set("[", [fmt_value(x, True) for x in a.data.keys()], "]")
+            return True
+        return False
+
     def apply_map(self, op, a, an):
+        if a.t == "msl":
+            return self.apply_msl(op, a, an)
         k = op["op"]
         em = self.em
         kt_ok = (lambda x: isinstance(x, str)) if a.t == "msi" else (lambda x: isinstance(x, int) and not isinstance(x, bool))
@@ -489,7 +545,7 @@ def gen_op(rng, it):
     lists = [x for x in names if it.vars[x].t in LIST_T]
     maps = [x for x in names if it.vars[x].t in MAP_T]
     if not names or (len(names) < 3 and rng.chance(1, 3)):
-        t = rng.weighted([("li", 4), ("ls", 2), ("lo", 2), ("ln", 2), ("msi", 3), ("mis", 2)])
+        t = rng.weighted([("li", 4), ("ls", 2), ("lo", 2), ("ln", 2), ("msi", 3), ("mis", 2), ("msl", 2)])
         if t == "li":
             init = [rng.choice(INTS) for _ in range(rng.range(0, 4))]
         elif t == "ls":
@@ -498,6 +554,8 @@ def gen_op(rng, it):
             init = [rng.choice(INTS + [None, None]) for _ in range(rng.range(0, 4))]
         elif t == "ln":
             init = [[rng.choice(INTS) for _ in range(rng.range(1, 3))] for _ in range(rng.range(0, 3))]
+        elif t == "msl":
+            init = []
         elif t == "msi":
             init = [[kk, rng.choice(INTS)] for kk in rng.sample(SKEYS, rng.range(0, 3))]
         else:
@@ -557,6 +615,16 @@ def gen_op(rng, it):
                          ("keys", 2), ("values", 2), ("pairs", 2), ("clear", 1), ("clone", 2), ("alias", 3), ("keys_len", 1),
                          ("mwrite_fn", 1), ("cap_call", 2), ("mwrite_from", 1)])
     op = {"op": kind, "a": a}
+    if o.t == "msl":
+        kind = rng.weighted([("mwrite", 6), ("mread", 3), ("mget", 4), ("mremove", 2), ("contains", 2), ("len", 1), ("values", 2), ("keys", 1),
+                             ("clear", 1), ("alias", 2)])
+        op = {"op": kind, "a": a, "k": rng.choice(SKEYS), "lv": [rng.choice(INTS) for _ in range(rng.range(1, 2))]}
+        cands = [x for x in lists if it.vars[x].t == "li"]
+        if kind == "mwrite" and cands and rng.chance(2, 3):
+            op["b"] = rng.choice(cands)
+        if kind == "mget" and o.data:
+            op["k"] = rng.choice(sorted(o.data.keys()))
+        return op
     if kind == "mwrite_from":
         cands = [x for x in lists if it.vars[x].t == "li"]
         if not cands or o.t != "msi":
